@@ -2,6 +2,7 @@
 """selftest.py [prop ...] — runs every catalogued variant against its property's
 check on a scratch copy: breaking ⇒ the named rule must fire; benign ⇒ silence."""
 import json, subprocess, sys, concurrent.futures as cf
+subprocess.run(['/verif/tools/build.sh'], check=True)
 cat = json.load(open('/verif/mutants/catalogue.json'))
 want = set(sys.argv[1:])
 def run(c):
